@@ -226,6 +226,43 @@ def rule_last_statement(ctx):
     ctx.floor("C04.d traces", n, 40)
 
 
+def rule_count_survives_reads(ctx):
+    """C04.h: cursor.rowcount keeps the affected-row count of the last statement whatever is read in between: evaluating
+    `description` (which runs a DESCRIBE), `sfqid`, `sqlstate` or the fetch methods leaves the rowcount attribute as it was."""
+    from ..execmodel import ExecHooks, make_session
+    from ..values import Obj
+
+    prog = ctx.prog
+    loc = "fakesnow/cursor.py"
+    n = 0
+    for reader, call in (("description", False), ("sqlstate", False), ("fetchall", True), ("fetchone", True), ("fetchmany", True)):
+        if not prog.has_fn("cursor", f"FakeSnowflakeCursor.{reader}"):
+            continue
+        sessions = []
+
+        def run(I, reader=reader, call=call):
+            duck, conn, cur = make_session()
+            cur.attrs[R().last_sql] = Sym("LAST_SQL", typ="str", truthy=True)
+            cur.attrs[R().table] = Obj("pending_table", kind="arrow")
+            cur.attrs[R().index] = Sym("pending_index", typ="int")
+            cur.attrs[R().last_params] = Sym("LAST_PARAMS")
+            cur.attrs[R().rowcount] = Sym("DML_ROWCOUNT", typ="int")
+            sessions.append(cur)
+            v = I.getattr(cur, reader)
+            return I.call(v, [], {}, None) if call else v
+
+        for p, cur in zip(explore(prog, lambda: ExecHooks(None), run, max_paths=64), sessions):
+            n += 1
+            rc = cur.attrs.get(R().rowcount)
+            ok = isinstance(rc, Sym) and rc.tag == "DML_ROWCOUNT"
+            ctx.ob("C04.h", f"rowcount is unchanged by reading cursor.{reader}", ok, loc, tagof(rc))
+            if not ok:
+                ctx.violation("C04.h", "cursor", f"FakeSnowflakeCursor.{reader}", f"rowcount after {reader}", loc,
+                              f"after `cursor.{reader}` the rowcount attribute is `{tagof(rc)}` instead of the affected-row count the last "
+                              f"statement left: a caller that looks at the result's shape before the count reads a wrong number of rows")
+    ctx.floor("C04.h reader paths", n, 5)
+
+
 from .c16 import rule_nop  # noqa: E402  (a statement wrongly no-op'd changes no rows and reports no count)
 
 def rule_lookups_scoped(ctx):
@@ -289,6 +326,7 @@ def rule_executemany_count(ctx):
 
 
 RULES = [
+    ("C04.h", rule_count_survives_reads, ("quick", "thorough")),
     ("C04.g", rule_executemany_count, ("quick", "thorough")),
     ("C04.f", rule_lookups_scoped, ("quick", "thorough")),
     ("C04.e", rule_nop, ("quick", "thorough")),
